@@ -11,11 +11,16 @@ def boundary_value(rng, sname, dname):
     dmin = -(1 << (db - 1)) if dsigned else 0
     smax = (1 << (sb - 1)) - 1 if ssigned else (1 << sb) - 1
     smin = -(1 << (sb - 1)) if ssigned else 0
-    c = rng.randrange(8)
+    c = rng.randrange(10)
     if c < 5:
         z = rng.choice([dmax, dmax + 1, dmin, dmin - 1, dmax - 1, dmin + 1, 0, -1, 1])
         z = max(smin, min(smax, z))
         return "boundary", pat(z, sb)
+    if c < 7 and sw and sb > sw:
+        # low digit = a valid (sign-extended) target value, upper digits say otherwise
+        low = pat(rng.choice([dmax, dmin, -1, 0, 1, rng.randrange(dmin, dmax + 1)]), sw)
+        hi = rng.choice([0, (1 << (sb - sw)) - 1, 1, rng.randrange(1 << (sb - sw))])
+        return "low-digit-decoy", (hi << sw) | low
     w = sw or 8
     t, v = value(rng, w, sb // w)
     return t, v
